@@ -1,23 +1,32 @@
 import P2.Driver.Json
+import P2.Driver.Lex
+import P2.Driver.Parse
 import P2.Driver.Xml
 import P2.Driver.MapSt
 import P2.Driver.Cmp
 import P2.Driver.Binning
 import P2.Driver.Lang
+import P2.Driver.Scope
 import P2.Driver.Heap
+import P2.Driver.Generic
 /-! Line-protocol driver of the model: one request per line on stdin, one response per line on stdout. -/
 open P2.Driver
 
 def handle (line : String) : String :=
   match splitTab line with
   | "JSON" :: args => handleJson args
+  | "LEX" :: args => P2.Driver.Lex.handleLex args
   | "XML" :: args => handleXml args
   | "HTML" :: args => handleHtml args
   | "MAPHIST" :: args => handleMapHist args
   | "CMP" :: args => handleCmp args
   | "BIN" :: args => handleBin args
   | "EVAL" :: args => handleEval args
+  | "SCOPE" :: args => handleScope args
   | "HIST" :: args => P2.Driver.Heap.handleHist args
+  | "PARSE" :: args => P2.Driver.C03.handleParse args
+  | "RENDER" :: args => P2.Driver.C03.handleRender args
+  | "GEN" :: args => handleGen args
   | "PING" :: _ => "PONG"
   | _ => "BADREQ"
 
